@@ -749,6 +749,20 @@ class PolarsModel(data_algebra.data_model.DataModel):
         """
         assert isinstance(data_map, Dict)
         assert isinstance(op, data_algebra.data_ops_types.OperatorPlatform)
+        # Polars reads a name of the form ^...$ (and *) as a selector over columns, not as a column
+        visit_stack = [op]
+        visited = set()
+        while len(visit_stack) > 0:
+            cursor = visit_stack.pop()
+            if id(cursor) in visited:
+                continue
+            visited.add(id(cursor))
+            for c in cursor.column_names:
+                if (c == "*") or (c.startswith("^") and c.endswith("$")):
+                    raise ValueError(
+                        f"Polars would read the column name {repr(c)} as a selector"
+                    )
+            visit_stack.extend(cursor.sources)
         res = self._compose_polars_ops(op=op, data_map=data_map)
         if isinstance(res, pl.LazyFrame):
             res = res.collect()
